@@ -202,8 +202,14 @@ def pictureWf (p : PictureVal) : Bool :=
     && decide (p.depth < 2 ^ 32) && decide (p.colors < 2 ^ 32)
 
 
+/-- the picture type writer is the inverse of the reader on every defined code (a finite table: `decide`) -/
+theorem pictureWriteCode_id (t : Nat) (h : t ≤ pictureTypeMax) : pictureWriteCode t = t := by
+  have key : ∀ i : Fin 21, pictureWriteCode i.val = i.val := by decide
+  have : pictureTypeMax = 20 := rfl
+  exact key ⟨t, by omega⟩
+
 def pictureBytes (p : PictureVal) : List Nat :=
-  beBytes 4 p.ptype ++ beBytes 4 p.mime.length ++ p.mime ++ beBytes 4 p.desc.length ++ p.desc
+  beBytes 4 (pictureWriteCode p.ptype) ++ beBytes 4 p.mime.length ++ p.mime ++ beBytes 4 p.desc.length ++ p.desc
     ++ beBytes 4 p.width ++ beBytes 4 p.height ++ beBytes 4 p.depth ++ beBytes 4 p.colors ++ beBytes 4 p.data.length ++ p.data
 
 theorem picture_roundtrip (p : PictureVal) (hw : pictureWf p = true) (hm : p.mime.length < 2 ^ 32) (hd : p.desc.length < 2 ^ 32)
@@ -213,7 +219,7 @@ theorem picture_roundtrip (p : PictureVal) (hw : pictureWf p = true) (hm : p.mim
   obtain ⟨⟨⟨⟨⟨⟨w1, w2⟩, w3⟩, w4⟩, w5⟩, w6⟩, w7⟩ := hw
   have e : pictureBytes p = beBytes 4 p.ptype ++ (beBytes 4 p.mime.length ++ (p.mime ++ (beBytes 4 p.desc.length ++ (p.desc
     ++ ((beBytes 4 p.width ++ beBytes 4 p.height ++ beBytes 4 p.depth ++ beBytes 4 p.colors ++ beBytes 4 p.data.length) ++ (p.data ++ [])))))) := by
-    simp [pictureBytes]
+    simp [pictureBytes, pictureWriteCode_id p.ptype w1]
   generalize (pictureBytes p).length = sz
   rw [e]
   have n1 : beNat (beBytes 4 p.ptype) = p.ptype := beNat_beBytes 4 _ (by have : pictureTypeMax = 20 := rfl; omega)
